@@ -212,7 +212,7 @@ NativeNames == {"dup", "drop", "swap", "rot", "over", "depth", "+", "-", "*", "/
 
 ImmediateNames == {"if", "else", "then", "case", "of", "endof", "endcase", "begin", "until", "while", "repeat",
                    "break", "do", "loop", "foreach", ":", ";", "local", "var", "!", "nil", "true", "false",
-                   "[", "]", "#(", "#)", "const", "late"}
+                   "[", "]", "#(", "#)", "~)", "const", "late"}
 
 \* ------------------------------------------------------------------ fetch_and_run
 Code(m)  == m.code[Ip(m) + 1]
@@ -486,6 +486,37 @@ LateWord(m0) ==
       m3 == PatchJump(m2, j, Rel(j, Origin(m2))) IN
   [m3 EXCEPT !.dict = Append(@, DEntry(name, "fn", start, NilV))]
 
+\* intern_source: a new source on top of the input stack
+Intern(m, toks) == [m EXCEPT !.input = Append(@, [toks |-> toks, eof |-> (m.srcs + 1) * 1000]), !.srcs = @ + 1]
+
+\* `~)`: the values the block has produced are joined into a text (strings as they are, other cells as printed), the
+\* block is closed WITHOUT emitting them, and the text becomes a new source on top of the input stack: the tokens that
+\* follow `~)` in the enclosing source are read after it.  The text -> tokens step of the lexer is a table here
+\* (KnownSources): the model knows the few texts its scenarios inject.
+KnownSources ==
+  [t \in {"7 foo", "1 then 2", ": zz 1", "1 2", "drop"} |->
+     CASE t = "7 foo"    -> <<TLit(IntV(7), 0), TWord("foo", 0)>>
+       [] t = "1 then 2" -> <<TLit(IntV(1), 0), TWord("then", 0), TLit(IntV(2), 0)>>
+       [] t = ": zz 1"   -> <<TWord(":", 0), TWord("zz", 0), TLit(IntV(1), 0)>>
+       [] t = "1 2"      -> <<TLit(IntV(1), 0), TLit(IntV(2), 0)>>
+       [] t = "drop"     -> <<TWord("drop", 0)>>]
+RECURSIVE InjectToks(_)
+InjectToks(vals) ==
+  IF vals = <<>> THEN <<>>
+  ELSE LET v == Untag(Head(vals)) IN
+       (CASE v.ty = "int" -> <<TLit(v, 0)>>
+          [] v.ty = "str" /\ v.s \in DOMAIN KnownSources -> KnownSources[v.s]
+          [] OTHER -> <<TBad("?", 0)>>) \o InjectToks(Tail(vals))
+InjectWord(m) ==
+  IF m.ctx.mode # "meta" THEN Fail(m, "Context")
+  ELSE IF Pending(m) THEN Fail(m, "ControlFlow")
+  ELSE LET vals == SubSeq(m.ds, m.ctx.ds_len + 1, Len(m.ds))
+           m1 == [m EXCEPT !.ds = Take(@, m.ctx.ds_len)]
+           m2 == Close(m1) IN
+       IF ~Ok(m2) THEN m2
+       ELSE LET toks == InjectToks(vals) IN
+            Intern(m2, [p \in 1..Len(toks) |-> [toks[p] EXCEPT !.id = (m2.srcs + 1) * 1000 + p]])
+
 NestedEnd(m) ==
   IF m.ctx.mode # "meta" THEN Fail(m, "Context")
   ELSE IF Pending(m) THEN Fail(m, "ControlFlow") ELSE Close(m)
@@ -538,6 +569,7 @@ Immediate(m, w) ==
                       ELSE Fail(IF Pending(m) THEN PopFlow(m) ELSE m, "ControlFlow")
     [] w = "#("    -> Open(m, "meta")
     [] w = "#)"    -> NestedEnd(m)
+    [] w = "~)"    -> InjectWord(m)
     [] w = "const" -> ConstWord(m)
     [] w = "late"  -> LateWord(m)
 
@@ -577,7 +609,6 @@ Build0(m, depth0) == LET r == Build([m EXCEPT !.errtok = 0], depth0) IN
 
 \* build_from_source: open context, intern the source, build, close (the early return on
 \* error skips the close in the pinned commit; see Interp.tla for the repaired submit)
-Intern(m, toks) == [m EXCEPT !.input = Append(@, [toks |-> toks, eof |-> (m.srcs + 1) * 1000]), !.srcs = @ + 1]
 
 \* The pinned commit's build_from_source (kept for the regression configurations): the early
 \* return on error skips context_close, leaves the lexer with its unread text, the flow stack
